@@ -89,8 +89,8 @@ CLAIMS = {
     "C10": dict(
         level="fault_enumeration",
         technique="fault-injection property-based testing with a scripted decoder (k-th decode / seek call fails once or forever) and real decoder threads paced through hook H2, over generated scenarios (natural end, stop, refused by a full track, track / manager dropped, paused parent) and decoder paces; bounded-exhaustive enumeration of every fault position of short streams",
-        text="Every case plays one streaming sound over a scripted decoder through the real manager. The decoder object's Drop is the observation that the decoding thread has ended: it must be seen within 2 s of the sound finishing, being stopped, failing, being refused by a full track or being discarded with its manager; the decode loop must not run without sleeping while it delivers nothing; after a scripted fault the sound must be Stopped after the next processed callback (after resume for a paused parent), unloaded one callback later, silent, and pop_error() must return the first fault; with a starving or stalled decoder the audible frames must be a strictly increasing subsequence of the index-coded source with at most one frame skipped per gap. All fault positions for stream lengths 1..24 (thorough 1..64) x packet sizes 1..4 (1..8) x once/forever x main/sub-track are enumerated; longer streams, scenarios and paces are random.",
-        note="'Bounded time' is fixed at 2 s and the idle-spin bound at 2w+50 iterations per w ms. The track-handle-dropped scenario is a known finding (excluded by construction, replayed as a witness). The harness owns the schedule at decoder-step granularity, not inside a step.",
+        text="Every case plays one streaming sound over a scripted decoder through the real manager. The decoder object's Drop is the observation that the decoding thread has ended: it must be seen within 4 s of the sound finishing, being stopped, failing, being refused by a full track or being discarded with its manager; the decode loop must not run without sleeping while it delivers nothing; after a scripted fault the sound must be Stopped after the next processed callback (after resume for a paused parent), unloaded one callback later, silent, and pop_error() must return the first fault; with a starving or stalled decoder the audible frames must be a strictly increasing subsequence of the index-coded source with at most one frame skipped per gap. All fault positions for stream lengths 1..24 (thorough 1..64) x packet sizes 1..4 (1..8) x once/forever x main/sub-track are enumerated; longer streams, scenarios and paces are random.",
+        note="'Bounded time' is fixed at 4 s and the idle-spin bound at 2w+50 iterations per w ms. The track-handle-dropped scenario is a known finding (excluded by construction, replayed as a witness). The harness owns the schedule at decoder-step granularity, not inside a step.",
         design="5/C10",
     ),
     "C07": dict(
